@@ -28,6 +28,8 @@ Definition unamb (G : env) (t : sty) (e : expr) : bool :=
   | Ok l => (count_fits t l <=? 1)%nat || crit md 2
   | Bad _ _ => true
   end.
+Definition ord_array (op : binop) (t : sty) : bool :=
+  match op, t with OLt, SArr _ _ _ _ => true | _, _ => false end.
 Definition is_agg (e : expr) : bool := match e with EAgg _ _ => true | _ => false end.
 
 Inductive HasTy (G : env) : expr -> sty -> Prop :=
@@ -42,8 +44,22 @@ Inductive HasTy (G : env) : expr -> sty -> Prop :=
 | HT_Bin : forall i op l r al ar t,
     HasTy G l al -> HasTy G r ar -> fits t al = true -> fits t ar = true ->
     sty_eqb al t || sty_eqb ar t = true ->
-    op_class_ok op t = true -> ops_visible G t = true ->
+    op_class_ok op t = true -> ord_array op t = false -> ops_visible G t = true ->
     HasTy G (EBin i op l r) (op_result op t)
+(* one operand an aggregate: its type is the one composite type of the other operand *)
+| HT_BinAggR : forall i op l r li t,
+    is_aggregate l = false -> is_aggregate r = true ->
+    interp md GE G l = Ok li -> agg_type G op li = Some t -> RootOk G t r ->
+    HasTy G (EBin i op l r) (op_result op t)
+| HT_BinAggL : forall i op l r ri t,
+    is_aggregate l = true -> is_aggregate r = false ->
+    interp md GE G r = Ok ri -> agg_type G op ri = Some t -> RootOk G t l ->
+    HasTy G (EBin i op l r) (op_result op t)
+(* ordering of two arrays of discrete elements: whether it is defined depends on the element type of the array type,
+   which the identity of a type value does not determine; the premise is the reference's own resolution *)
+| HT_OrdArr : forall i l r lst,
+    interp md GE G (EBin i OLt l r) = Ok lst -> existsb (sty_eqb SBool) lst = true ->
+    HasTy G (EBin i OLt l r) SBool
 | HT_Not : forall i e t,
     HasTy G e t -> (match t with SBool | SBit => true | _ => false end) = true -> HasTy G (ENot i e) t
 | HT_Qual : forall tm e t,
